@@ -109,6 +109,9 @@ type Exec struct {
 	rtErrT      types.Type
 	syncMaps    map[*Value]*MapV
 	inMerge     int
+	digests     map[string][]Value
+	oracle      map[string]int
+	dialConn    Iface
 	clockFrozen bool
 	zw          map[*Value]*zwState
 	panicFn     string
